@@ -5,19 +5,19 @@ CONSTANTS
   Handlers <- MC_Handlers
   HandlerRank <- MC_HandlerRank
   HMatches <- MC_HMatches
-  DispatchPolicy = "min_id"
+  DispatchPolicy = "head"
   None = None
-  IntentSet = {"AB1", "B1", "N1"}
-  EventSet = {"B1"}
+  IntentSet = {"A1", "B1", "N1"}
+  EventSet = {}
   SeqNos = {7}
   Mode = "graph"
-  MidTx = TRUE
-  UseDrainAll = TRUE
+  MidTx = FALSE
+  UseDrainAll = FALSE
   MaxRetry = 0
   MaxTx = 0
   MaxAbort = 0
   MaxDrainAll = 0
-  Export = TRUE
+  Export = FALSE
 VIEW MC_View
 INVARIANTS GraphWellFormed PendingIsSet LedgerPartition AtMostOnce ConsumedInCanonicalOrder HandledExactlyOnce LogSound LegacyIngressBlocksFresh TicksSound DrainIsFunctionOfSet
 PROPERTIES RetryChangesNothing IngestLaw DispatchPicksMin OnlyCommitConsumes
